@@ -32,14 +32,43 @@ from .yp_prolog_visitor import *
 from .yp_generator import *
 import contextlib
 import click
+from antlr4.error.ErrorListener import ErrorListener
 from .errors import CompilerError
+
+class _SourcePosition:
+    '''stand-in for an ANTLR context, for errors without a parse tree node.'''
+    def __init__(self, line, column):
+        self.start = self
+        self.line = line
+        self.column = column
+
+class _RaisingErrorListener(ErrorListener):
+    '''turns every lexer or parser error into a CompilerError, instead of
+    printing it and continuing with a recovered parse tree.'''
+    def __init__(self, filename):
+        self.filename = filename
+    def syntaxError(self, recognizer, offendingSymbol, line, column, msg, e):
+        raise CompilerError(self.filename, _SourcePosition(line, column), msg)
 
 def _compile_prolog_from_stream(inp, ctx):
     '''compiles prolog source from an antlr4 stream.'''
+    filename = getattr(ctx, 'current_source_file', '')
+    listener = _RaisingErrorListener(filename)
     lexer = prologLexer(inp)
+    lexer.removeErrorListeners()
+    lexer.addErrorListener(listener)
     stream = CommonTokenStream(lexer)
     parser = prologParser(stream)
+    parser.removeErrorListeners()
+    parser.addErrorListener(listener)
     tree = parser.program()
+    rest = stream.LT(1)
+    if rest.type != Token.EOF:
+        # the grammar's start rule does not require EOF, so the parser stops
+        # silently at the first token that cannot start a clause
+        raise CompilerError(filename,
+                _SourcePosition(rest.line, rest.column),
+                f"unexpected input {rest.text!r}")
     visitor = YPPrologVisitor(ctx)
     program = visitor.visit(tree)
     compiler = YPPrologCompiler(ctx)
